@@ -546,5 +546,5 @@ def redos(pattern: str, flags: int = 0) -> list[str]:
 # Python output languages of the format specs used by the printers (trusted table, see DESIGN §3)
 
 PY_INT = r"-?[0-9]+"
-PY_FLOAT_REPR = r"-?(?:[0-9]+\.[0-9]+|[0-9]+(?:\.[0-9]+)?e[-+][0-9]+|inf|nan)"
+PY_FLOAT_REPR = r"-?(?:[0-9]+\.[0-9]+|[1-9](?:\.[0-9]+)?e[-+][0-9]{2,3}|inf|nan)"
 PY_BOOL_LOWER = r"true|false"
